@@ -83,6 +83,36 @@ def coarsen(names, edges, groups, level, prefix):
     return defs, new_names, new_edges
 
 
+# hand-written layered strings with their flattened two-level form ('@l', '@m': label holes; same atoms in both)
+TEMPLATES = [
+    # descriptor written after two sibling branches in an intermediate fragment
+    ('{[#A0][#B0]}.{#A0=[#a]([#b])([#c])[>@l],#B0=[<@l][#d]}.{#a=[$]C([$])([$])[$],#b=[$]O,#c=[$]N,#d=[$]S}',
+     '{[#a]([#b])([#c])[#d]}.{#a=[$]C([$])([$])[$],#b=[$]O,#c=[$]N,#d=[$]S}'),
+    # shared (squashed) nodes on two consecutive levels
+    ('{[#P][#Q]}.{#P=[#a][#b][!@l],#Q=[!@l][#b][#c]}.{#a=OC[!@m],#b=[!@m]CC[$],#c=[$]N}',
+     '{[#a][#b][#c]}.{#a=OC[!@m],#b=[!@m]CC[$],#c=[$]N}'),
+    ('{[#P][#Q][#R]}.{#P=[#a][#b][!@l],#Q=[!@l][#b][#c][>],#R=[<][#d]}.{#a=OC[!@m],#b=[!@m]CC[$],#c=[$]N[$],#d=[$]C}',
+     '{[#a][#b][#c][#d]}.{#a=OC[!@m],#b=[!@m]CC[$],#c=[$]N[$],#d=[$]C}'),
+    # bond order carried by a descriptor pair at the intermediate level, ring bond inside an intermediate fragment
+    ('{[#P][#Q]}.{#P=[#a]=[>@l],#Q=[<@l]=[#b]}.{#a=[$]CC[$],#b=[$]CC[$]}', '{[#a]=[#b]}.{#a=[$]CC[$],#b=[$]CC[$]}'),
+    ('{[#P][#Q]}.{#P=[#a]1[#b][#c]1[$@l],#Q=[$@l][#d]}.{#a=[$]C[$],#b=[$]C[$],#c=[$]C([$])[$],#d=[$]O}',
+     '{[#a]1[#b][#c]1[#d]}.{#a=[$]C[$],#b=[$]C[$],#c=[$]C([$])[$],#d=[$]O}'),
+]
+
+
+def fill_labels(text, holes):
+    parts = []
+    i = 0
+    while i < len(text):
+        if text[i] == '@':
+            parts.append(holes[text[i + 1]])
+            i += 2
+        else:
+            parts.append(text[i])
+            i += 1
+    return cat(*parts)
+
+
 class C06(core.Prop):
     ID = 'C06'
     FUNCTIONS = ['resolve', 'resolve_iter', 'resolve_all', 'read_fragment_strings', 'read_fragment_cgsmiles', 'from_string',
@@ -129,6 +159,8 @@ class C06(core.Prop):
                                          if self._gi(grp, a) != self._gi(grp, b)})
                         for grp2 in connected_groupings(len(grp), gedges)[:2]:
                             out.append({'case': s, 'groups': [grp, grp2], 'aa': True})
+        for i in range(len(TEMPLATES)):
+            out.append({'mode': 'tmpl', 'idx': i, 'aa': True})
         return out
 
     @staticmethod
@@ -138,6 +170,10 @@ class C06(core.Prop):
                 return gi
 
     def build(self, shape):
+        if shape.get('mode') == 'tmpl':
+            layered, flat = TEMPLATES[shape['idx']]
+            holes = {'l': SymStr([sym_alnum('tl')]), 'm': SymStr([sym_alnum('tm')])}
+            return {'text': fill_labels(layered, holes), 'two_level': fill_labels(flat, holes), 'nlevels': layered.count('}.{')}
         case = shape['case']
         r = pl.render_case(case)
         names = list(r.names)
@@ -199,6 +235,11 @@ class C06(core.Prop):
                     member_of.setdefault(n, []).append(k2)
             cl.append(('mapping_relation_each_step', all(sorted(set(nodes[n].get('fragid', []))) == sorted(member_of[n]) and member_of[n]
                                                        for n in nodes)))
+        if shape.get('mode') == 'tmpl':
+            g1, h1, _ = pl.observed_heavy_graph(steps[-1]['mol'])
+            g2, h2, _ = pl.observed_heavy_graph(o['two']['mol'])
+            cl.append(('same_as_two_level_string', gg.iso_clause(g1, g2, pl.node_eq, pl.edge_eq)))
+            return cl
         if shape['aa']:
             mol = gm.parse_smiles(shape['case']['smiles'])
             spec = pl.spec_graph(mol)
